@@ -63,6 +63,11 @@ def formula_scope(name):
         return [(q, g) for q in 'AE' for g in fm.ltl_paths(1)]
     if name == 'Qg-k2':
         return [(q, g) for q in 'AE' for g in fm.ltl_paths(2)]
+    if name == 'Qg-tt':
+        # two operators, both temporal: the operand of the outer temporal operator is itself a
+        # path formula (G F p, X G q, (X p) U q, ...): the shapes no CTL rule applies to
+        return [(q, g) for q in 'AE' for g in fm.enum_exact(fm.LTL_UN, fm.LTL_BIN, (fm.P, fm.Q), 2)
+                if g[0] in fm.TEMP and fm.temporal_count(g) == 2]
     if name == 'nest2':
         inner = []
         for q in 'AE':
@@ -155,16 +160,20 @@ def run(ctx):
                 'CTL-shaped or quantifier nesting >= 2).  Route histogram in classes.')
     if ctx.thorough:
         scopes = [(1, 'Qg-k2', 1), (2, 'Qg-k2', 1), (1, 'nest2', 1), (2, 'nest2', 1),
-                  (2, 'bool2', 1), (3, 'Qg-k1', 16), (3, 'nest2', 64), (4, 'Qg-k1', 8009)]
+                  (2, 'bool2', 1), (3, 'Qg-k1', 16), (3, 'nest2', 64), (4, 'Qg-k1', 8009),
+                  (3, 'Qg-tt', 7), (3, 'Qg-k2', 211), (4, 'Qg-tt', 40009)]
         ctx.scopes = ['S(1)+S(2) x Qg-k2 (8648 formulas)', 'S(1)+S(2) x nest2', 'S(2) x bool2',
                       'every 16th of S(3) x Qg-k1', 'every 64th of S(3) x nest2',
-                      'every 8009th of S(4) x Qg-k1']
+                      'every 8009th of S(4) x Qg-k1', 'every 7th of S(3) x Qg-tt (two nested temporal operators)',
+                      'every 211th of S(3) x Qg-k2', 'every 40009th of S(4) x Qg-tt']
     else:
         scopes = [(1, 'Qg-k2', 1), (2, 'Qg-k1', 1), (2, 'Qg-k2', 24), (1, 'nest2', 1),
-                  (2, 'nest2', 12), (2, 'bool2', 6), (3, 'Qg-k1', 331), (4, 'Qg-k1', 120011)]
+                  (2, 'nest2', 12), (2, 'bool2', 6), (3, 'Qg-k1', 331), (4, 'Qg-k1', 120011),
+                  (3, 'Qg-tt', 401)]
         ctx.scopes = ['S(1) x Qg-k2', 'S(2) x Qg-k1', 'every 24th of S(2) x Qg-k2', 'S(1) x nest2',
                       'every 12th of S(2) x nest2', 'every 6th of S(2) x bool2',
-                      'every 331st of S(3) and every 120011th of S(4) x Qg-k1']
+                      'every 331st of S(3) and every 120011th of S(4) x Qg-k1',
+                      'every 401st of S(3) x Qg-tt (two nested temporal operators)']
     ctx.exhaustive = True
     ctx.assumptions = ['reference semantics vp/ref.py (R-STAR) is the trusted base',
                        'atoms are p,q: exactness under atom names that collide with the '
@@ -174,7 +183,13 @@ def run(ctx):
         ctx.violation(minimise(f, check_ctls, valid=fm.ctls_state))
         return
 
-    st = ctx.stats
+    f = core.run_random(ctx, random_shard, 800, 12000)
+    if f is not None:
+        ctx.violation(f)
+
+
+def random_shard(st, shard, nshards, payload):
+    from hypothesis import strategies as hs
     case = hs.fixed_dictionaries({
         'K': km.st_kripke(1, 4),
         'f': fm.st_formula('ctls_state', max_depth=4, max_temporal=3),
@@ -195,6 +210,6 @@ def run(ctx):
             st.sample(inp, cls='random-%d-%s' % (fm.quant_depth(f_), inp['form']))
         return check_ctls(inp)
 
-    f = core.run_hypothesis(ctx, case, body, ctx.pick(500, 6000))
+    f = core.hyp_run(payload['seed'] * 1000 + shard, case, body, payload['n'])
     if f is not None:
-        ctx.violation(f)
+        st.failure = f
